@@ -27,3 +27,7 @@ add("C16", "exploration", "complete table verification + bounded exhaustive enum
     "All 15 tables entry by entry against GF(2^8) definitions; every single-active-byte key and block for all key sizes; all modes for every length 1..64; ALL ways to cut inputs at <=2 (thorough 3) points through the feeders; adapter for every length 1..96; every call sequence of length <=3 (thorough 4) over three adapter objects compared with fresh objects.",
     "Agreement on untested 128-bit values is inferred from the cipher's input-independent control flow; reference AES cross-checked against OpenSSL.",
     "E1+E2", "DESIGN.md 4/C16")
+add("C06", "exploration", "bounded exhaustive enumeration of contents/keys/framings plus exhaustive cipher-fault injection at every call index",
+    "Every content length 1..N x trailing-zero run x 5 keys x BF3/BEC2, 4 configurations through set_config, and a cipher failure injected at every call index of the write: stored payload must equal the reference AES-128-CBC ciphertext, read-back must return the content and flag, no secret needle may occur in binary or hex text, faulted writes must raise and leave no needle.",
+    "Reference AES and layout parser trusted (self-checked); needles are high-entropy so accidental hits are negligible.",
+    "E1+E3", "DESIGN.md 4/C06")
